@@ -11,6 +11,12 @@ func DecodeSecret(secret string) ([]byte, error) {
 		secret = secret + strings.Repeat("=", 8-n)
 	}
 
+	// The base32 alphabet is ASCII: strings.ToUpper would map other letters (U+017F, U+0131) into it.
+	for i := 0; i < len(secret); i++ {
+		if secret[i] >= 0x80 {
+			return nil, base32.CorruptInputError(i)
+		}
+	}
 	secret = strings.ToUpper(secret)
 
 	return base32.StdEncoding.DecodeString(secret)
